@@ -6,6 +6,7 @@ import (
 	"bytes"
 	"fmt"
 	"io"
+	"io/ioutil"
 	"math/rand"
 	"strings"
 	"testing/iotest"
@@ -164,6 +165,16 @@ func checkC16(c *Ctx) {
 				cont.SetBytes(o.Tag, o.Val)
 			}
 			ser = cont.BytesBuffer().Bytes()
+			// a container may be serialised more than once, and its buffers may be consumed by reading (io.Copy to a
+			// response): every serialisation must give the same bytes, also after an empty set in between
+			first, _ := ioutil.ReadAll(cont.BytesBuffer())
+			if i%2 == 0 {
+				cont.SetBytes(cs.ops[0].Tag, nil)
+			}
+			second, _ := ioutil.ReadAll(cont.BytesBuffer())
+			if !bytes.Equal(first, ser) || !bytes.Equal(second, ser) {
+				c.Violate("tlv8 container serialises differently when serialised again", cs.id, lines[i], hx(ser), hx(first)+" then "+hx(second))
+			}
 			re, err := util.NewTLV8ContainerFromReader(bytes.NewReader(ser))
 			if err != nil {
 				perr = tlvErrClass(err)
